@@ -232,7 +232,7 @@ Print Assumptions C13_frame_chain.
 Example C13_gauge_kernel_exists : forall R : CRing, gdec_factor (triv_dec R).
 Proof. exact triv_dec_factor. Qed.
 Example C13_op_table_nonvacuous :
-  length oprows = 66 /\ length covered_ops = 39 /\
+  length oprows = 75 /\ length covered_ops = 41 /\
   fset_eqb (s_rewrite (gsig_of Chain Add)) [FSite; FCoeff; FMeta] = true /\
   s_share (gsig_of Chain Conj) = [FSite] /\ s_share (gsig_of Tree ToComplex) = [].
 Proof. vm_compute. repeat split; reflexivity. Qed.
